@@ -6,8 +6,9 @@ SPEC_PART = dict(
              "(independent of the crate and of the Coq model); the oracle decodes them with Spec/ThetaLayout.v"],
     assumptions=[],
     covers="theta: c_deserialize(enc_spec v a) = Ok (the state a) for serVer 1, serVer 2 (empty / exact / estimating), serVer 3 "
-           "(empty, single item with or without SINGLE_ITEM flag, exact, estimating incl. zero entries, ordered / unordered) and "
-           "serVer 4 (all widths), for every admissible abstract state; the value read is well-formed for both writers. Repaired "
-           "D11 (serVer 2 exact decoded as empty). Tie: every image accepted by the independent decoder must be read by the crate "
-           "to exactly the decoded state (entries in order, theta, seed hash, emptiness, estimate bit for bit) and re-serialize "
+           "(empty, single item with or without SINGLE_ITEM flag, exact, estimating incl. zero entries, ordered / unordered, "
+           "and the same states written with more preamble longs than necessary: preLongs 2 with one entry, preLongs 3 in exact "
+           "mode) and serVer 4 (all widths; the specification requires ORDERED set and EMPTY clear there), for every admissible abstract state; the value read is well-formed for both writers. Repaired "
+           "D11 (serVer 2 exact decoded as empty). Tie: every image accepted by the independent decoder (which validates the serVer 4 "
+           "flags; undefined flag bits are ignored on both sides) must be read by the crate to exactly the decoded state (entries in order, theta, seed hash, emptiness, estimate bit for bit) and re-serialize "
            "(both writers) to images that decode to the same state; entry counts at powers of 256 (255..257, 65535..65537)")
